@@ -76,7 +76,11 @@ func handleExtensionsInits(p *Params) gqlerrors.FormattedErrors {
 
 // handleExtensionsParseDidStart runs the ParseDidStart functions for each extension
 func handleExtensionsParseDidStart(p *Params) ([]gqlerrors.FormattedError, parseFinishFuncHandler) {
-	fs := map[string]ParseFinishFunc{}
+	type named struct {
+		name string
+		fn   ParseFinishFunc
+	}
+	fs := []named{}
 	errs := gqlerrors.FormattedErrors{}
 	for _, ext := range p.Schema.extensions {
 		var (
@@ -93,12 +97,13 @@ func handleExtensionsParseDidStart(p *Params) ([]gqlerrors.FormattedError, parse
 			ctx, finishFn = ext.ParseDidStart(p.Context)
 			// update context
 			p.Context = ctx
-			fs[ext.Name()] = finishFn
+			fs = append(fs, named{ext.Name(), finishFn})
 		}()
 	}
 	return errs, func(err error) []gqlerrors.FormattedError {
 		errs := gqlerrors.FormattedErrors{}
-		for name, fn := range fs {
+		for _, f := range fs {
+			name, fn := f.name, f.fn
 			func() {
 				// catch panic from a finishFn
 				defer func() {
@@ -115,7 +120,11 @@ func handleExtensionsParseDidStart(p *Params) ([]gqlerrors.FormattedError, parse
 
 // handleExtensionsValidationDidStart notifies the extensions about the start of the validation process
 func handleExtensionsValidationDidStart(p *Params) ([]gqlerrors.FormattedError, validationFinishFuncHandler) {
-	fs := map[string]ValidationFinishFunc{}
+	type named struct {
+		name string
+		fn   ValidationFinishFunc
+	}
+	fs := []named{}
 	errs := gqlerrors.FormattedErrors{}
 	for _, ext := range p.Schema.extensions {
 		var (
@@ -132,12 +141,13 @@ func handleExtensionsValidationDidStart(p *Params) ([]gqlerrors.FormattedError, 
 			ctx, finishFn = ext.ValidationDidStart(p.Context)
 			// update context
 			p.Context = ctx
-			fs[ext.Name()] = finishFn
+			fs = append(fs, named{ext.Name(), finishFn})
 		}()
 	}
 	return errs, func(errs []gqlerrors.FormattedError) []gqlerrors.FormattedError {
 		extErrs := gqlerrors.FormattedErrors{}
-		for name, finishFn := range fs {
+		for _, f := range fs {
+			name, finishFn := f.name, f.fn
 			func() {
 				// catch panic from a finishFn
 				defer func() {
@@ -154,7 +164,11 @@ func handleExtensionsValidationDidStart(p *Params) ([]gqlerrors.FormattedError, 
 
 // handleExecutionDidStart handles the ExecutionDidStart functions
 func handleExtensionsExecutionDidStart(p *ExecuteParams) ([]gqlerrors.FormattedError, executionFinishFuncHandler) {
-	fs := map[string]ExecutionFinishFunc{}
+	type named struct {
+		name string
+		fn   ExecutionFinishFunc
+	}
+	fs := []named{}
 	errs := gqlerrors.FormattedErrors{}
 	for _, ext := range p.Schema.extensions {
 		var (
@@ -171,12 +185,13 @@ func handleExtensionsExecutionDidStart(p *ExecuteParams) ([]gqlerrors.FormattedE
 			ctx, finishFn = ext.ExecutionDidStart(p.Context)
 			// update context
 			p.Context = ctx
-			fs[ext.Name()] = finishFn
+			fs = append(fs, named{ext.Name(), finishFn})
 		}()
 	}
 	return errs, func(result *Result) []gqlerrors.FormattedError {
 		extErrs := gqlerrors.FormattedErrors{}
-		for name, finishFn := range fs {
+		for _, f := range fs {
+			name, finishFn := f.name, f.fn
 			func() {
 				// catch panic from a finishFn
 				defer func() {
@@ -193,7 +208,11 @@ func handleExtensionsExecutionDidStart(p *ExecuteParams) ([]gqlerrors.FormattedE
 
 // handleResolveFieldDidStart handles the notification of the extensions about the start of a resolve function
 func handleExtensionsResolveFieldDidStart(exts []Extension, p *executionContext, i *ResolveInfo) ([]gqlerrors.FormattedError, resolveFieldFinishFuncHandler) {
-	fs := map[string]ResolveFieldFinishFunc{}
+	type named struct {
+		name string
+		fn   ResolveFieldFinishFunc
+	}
+	fs := []named{}
 	errs := gqlerrors.FormattedErrors{}
 	for _, ext := range p.Schema.extensions {
 		var (
@@ -210,12 +229,13 @@ func handleExtensionsResolveFieldDidStart(exts []Extension, p *executionContext,
 			ctx, finishFn = ext.ResolveFieldDidStart(p.Context, i)
 			// update context
 			p.Context = ctx
-			fs[ext.Name()] = finishFn
+			fs = append(fs, named{ext.Name(), finishFn})
 		}()
 	}
 	return errs, func(val interface{}, err error) []gqlerrors.FormattedError {
 		extErrs := gqlerrors.FormattedErrors{}
-		for name, finishFn := range fs {
+		for _, f := range fs {
+			name, finishFn := f.name, f.fn
 			func() {
 				// catch panic from a finishFn
 				defer func() {
